@@ -132,7 +132,58 @@ type c15 struct{}
 func (c15) ID() string { return "C15" }
 
 func (c15) Plan(tier string) []fw.Unit {
-	return planEnum("C15", tier, 1, 32)
+	us := planEnum("C15", tier, 1, 32)
+	return append(us, fw.Unit{Check: "C15", Kind: "key-pairs", Tier: tier, Spec: fw.Spec(enumSpec{})})
+}
+
+// c15KeyPairs: PARTITION BY isolates every pair of distinct key tuples. Rows t1(v=1) t2(v=1) t1(v=2) t2(v=2)
+// with PATTERN (A B), A: v = 1, B: v = 2 match once per partition; merged partitions would match once in all.
+func c15KeyPairs() fw.Result {
+	a := newAcc("C15", "cep-key-pairs")
+	comps := []any{"", "|", "a", "a|1:a", "1:a|", "1", 1, nil, true, "string|a", 16777216.0, 16777217.0}
+	var uni [][]any
+	for _, x := range comps {
+		for _, y := range comps[:6] {
+			uni = append(uni, []any{x, y})
+		}
+	}
+	sql := "SELECT * FROM stream MATCH_RECOGNIZE (PARTITION BY a, b ORDER BY ts MEASURES FIRST(id) AS f, LAST(id) AS l ONE ROW PER MATCH PATTERN (A B) DEFINE A AS v = 1, B AS v = 2)"
+	for i := 0; i < len(uni); i++ {
+		for j := i + 1; j < len(uni); j++ {
+			var rows []Row
+			for n := 0; n < 4; n++ {
+				t := uni[[]int{i, j}[n%2]]
+				rows = append(rows, Row{"id": n + 1, "ts": int64(1000 + n), "v": 1 + n/2, "a": t[0], "b": t[1]})
+			}
+			r := detExec(sql, detOpts{Eager: true, Horizon: 100 * vtime.Millisecond}, func(e *Env) {
+				for _, row := range rows {
+					e.Emit(row)
+				}
+			})
+			a.r.Evaluations++
+			a.r.States++
+			a.r.Transitions += int64(r.Steps)
+			a.r.Nontrivial++
+			cs := map[string]any{"sql": sql, "rows": rows}
+			if r.ExecErr != "" || r.Status != sched.StatusOK {
+				a.fail("C15|key-pairs|exec", r.ExecErr+" "+r.Status.String()+" "+firstLine(r.Panic), cs, nil, nil)
+				continue
+			}
+			var got []string
+			for _, b := range r.Batches {
+				for _, row := range b {
+					got = append(got, fmt.Sprintf("%v-%v", row["f"], row["l"]))
+				}
+			}
+			sort.Strings(got)
+			a.outcome(strings.Join(got, ","))
+			if strings.Join(got, ",") != "1-3,2-4" {
+				a.fail("C15|key-pairs|partitions-not-isolated", fmt.Sprintf("%s: partition keys %s and %s fed alternately give matches %v, reference [1-3 2-4]", sql, js(uni[i]), js(uni[j]), got), cs, "1-3,2-4", got)
+			}
+		}
+	}
+	a.sample(map[string]any{"sql": sql, "component_values": fmt.Sprint(comps), "tuples": len(uni)})
+	return a.result()
 }
 
 func c15Events(vals []int, key string, idBase int) []ref.MREvent {
@@ -152,6 +203,9 @@ func c15ExpectedObs(ms []ref.MRMatch, ev []ref.MREvent, key string) []c15Obs {
 }
 
 func (c15) Run(u fw.Unit) fw.Result {
+	if u.Kind == "key-pairs" {
+		return c15KeyPairs()
+	}
 	sp := parseEnum(u)
 	a := newAcc("C15", "cep")
 	pats := c15Patterns()
